@@ -304,7 +304,10 @@ def gen_shim(acc, sentinels=None):
         if out.type == T.STR:
             o.append("  if (ST->%s_counter > %d) return %d;" % (nm, out.effective_string_size(), k))
             if out.str_null:
-                o.append("  if (ST->c.%s && ST->%s_counter <= %d && ((unsigned char*)ST->c.%s)[ST->%s_counter] != 0 && ST->%s_counter > 0) return %d;" % (nm, nm, out.effective_string_size(), nm, nm, nm, k + 1))
+                # (a string that was never written has no terminator - start() does not store one - so length 0 is only checked for strings
+                # that start() itself writes, i.e. those with a default value: after a delete they must be empty C strings again)
+                o.append("  if (ST->c.%s && ST->%s_counter <= %d && ((unsigned char*)ST->c.%s)[ST->%s_counter] != 0 && (ST->%s_counter > 0 || %d)) return %d;" % (
+                    nm, nm, out.effective_string_size(), nm, nm, nm, 1 if out.default_value is not None else 0, k + 1))
             if dyn:
                 o.append("  if (!ST->c.%s && ST->%s_counter > 0) return %d;" % (nm, nm, k + 2))
         elif out.type == T.RAW:
